@@ -147,6 +147,12 @@ def assigned_value(stmt, name):
     def match(t, v):
         if isinstance(t, ast.Name):
             return v if t.id == name else None
+        if isinstance(t, (ast.Tuple, ast.List)) and isinstance(v, ast.IfExp):
+            # a, b = (x, None) if c else (None, x)   ->   name bound to  (x if c else None)
+            b, o = match(t, v.body), match(t, v.orelse)
+            if b is not None and o is not None:
+                return ast.IfExp(test=v.test, body=b, orelse=o)
+            return None
         if isinstance(t, (ast.Tuple, ast.List)) and isinstance(v, (ast.Tuple, ast.List)) and \
                 len(t.elts) == len(v.elts) and not any(isinstance(e, ast.Starred) for e in t.elts + v.elts):
             for te, ve in zip(t.elts, v.elts):
@@ -1931,6 +1937,8 @@ class _ScaleWalk:
     def block(self, stmts, cond):
         """Walk statements under path condition cond; return the fall-through condition."""
         for st in stmts:
+            if cond is boolx.FALSE:
+                break       # unreachable (previous statement always returns / continues)
             cond = self.stmt(st, cond)
         return cond
 
@@ -2958,11 +2966,66 @@ def unit_factor(repo, out):
     _reuse('C11', 'factor_once')(repo, out)
 
 
+_SCALE_CALLS = ('_apply_unit_scaling', 'apply_jac_scaling')
+_SUB_CALLS = ('_apply_subtractions',)
+
+
+def _order_summary(repo, fn, depth=0, seen=()):
+    """(cx, sub nodes, scale nodes, problems) of a _TotalJacInfo method; a call of another method of the class
+    that (transitively) subtracts or scales counts as such an event at its call site, and the callee's own
+    internal order is checked recursively."""
+    cx = Ctx(fn)
+    subs, scales, problems = [], [], []
+    for n in cx.g.nodes:
+        for c in n.calls():
+            attr = astx.callee_attr(c)
+            if attr in _SUB_CALLS:
+                subs.append(n)
+            elif attr in _SCALE_CALLS:
+                scales.append(n)
+            elif astx.path(astx.receiver(c)) == 'self' and depth < 3 and attr not in seen and \
+                    attr not in ('compute_totals',):
+                callee = repo.try_func(TJ, f'{CLS}.{attr}')
+                if callee is None or callee is fn:
+                    continue
+                _, csubs, cscales, cprob = _order_summary(repo, callee, depth + 1, seen + (fn.name,))
+                problems.extend(cprob)
+                if csubs:
+                    subs.append(n)
+                if cscales:
+                    scales.append(n)
+    g = cx.g
+    for sc in scales:
+        after = g.reach(g.normal_succ(sc), labels=cfgm.noexc)
+        late = [x for x in subs if x in after and x is not sc]
+        if late:
+            problems.append((fn, sc, late[0]))
+    return cx, subs, scales, problems
+
+
 @rule('C01.order', floor=3)
 def order_(repo, out):
-    """compute_totals: the substitution-colouring subtractions (which combine entries of different rows /
-    columns) are completed before any in-place unit or driver scaling of J (same clause as C03.order)."""
-    _reuse('C03', 'order')(repo, out)
+    """compute_totals (following helper methods of the class): no substitution-colouring subtraction, which
+    combines entries of different rows / columns, can run after an in-place unit or driver scaling of J."""
+    fn = tj(repo, 'compute_totals')
+    cx, subs, scales, problems = _order_summary(repo, fn)
+    if not scales:
+        raise AnalysisError(f'{fn.ident}: no unit / driver scaling of J found (directly or through a helper)')
+    if not subs:
+        raise AnalysisError(f'{fn.ident}: no _apply_subtractions call found (directly or through a helper)')
+    for f2, sc, sub in problems:
+        out.bad(f2, sc.ast, f'`{astx.src(sc.ast)[:70]}` rescales entries of J in place and `{astx.src(sub.ast)[:70]}` '
+                'can still run afterwards: the subtraction combines entries of different rows / columns, which '
+                'is only valid while they share one scale (substitution colouring with non-uniform '
+                'ref / units gives wrong entries)', key=f'order:{f2.name}:scale-before-subtraction')
+    if problems:
+        return
+    # the approximation path scales too but has no subtractions; the main path: subtraction dominates scaling
+    direct_sub = [n for n in subs]
+    for sc in scales:
+        out.ok(fn, sc.ast, 'no colouring subtraction can follow this scaling')
+    out.ok(fn, direct_sub[0].ast, 'subtractions are completed before J is scaled')
+    # mutual exclusivity with the approx branch is irrelevant: it returns before the loop
 
 
 @rule('C01.transfer-scaling', floor=10)
@@ -3170,6 +3233,16 @@ selftest(
            "                            if n in driver_ordered_nl_resp_names]", 'C01.driver-order', nth=0),
     Mutant('subtractions-after-scaling', TJ,
            "                if self.simul_coloring is not None and self.simul_coloring._subtractions:\n                    self.simul_coloring._apply_subtractions(self.J)\n\n                self._apply_unit_scaling(self.J_dict)\n\n                # Driver scaling.\n                if self.has_scaling:\n                    self._driver._autoscaler.apply_jac_scaling(self.J_dict)\n\n", "                self._apply_unit_scaling(self.J_dict)\n\n                # Driver scaling.\n                if self.has_scaling:\n                    self._driver._autoscaler.apply_jac_scaling(self.J_dict)\n\n                if self.simul_coloring is not None and self.simul_coloring._subtractions:\n                    self.simul_coloring._apply_subtractions(self.J)\n\n", 'C01.order'),
+    Mutant('helper-scales-before-subtraction', TJ, "                # substitution-method coloring: recover the remaining entries before any scaling,\n                # since the subtractions combine entries from different rows/columns.\n                if self.simul_coloring is not None and self.simul_coloring._subtractions:\n                    self.simul_coloring._apply_subtractions(self.J)\n\n                self._apply_unit_scaling(self.J_dict)\n\n                # Driver scaling.\n                if self.has_scaling:\n                    self._driver._autoscaler.apply_jac_scaling(self.J_dict)\n", "                self._finish_jac()\n", 'C01.order',
+           also=[(TJ, "    def compute_totals(self, progress_out_stream=None):\n", "    def _finish_jac(self):\n        coloring = self.simul_coloring\n        jac_dict = self.J_dict\n        self._apply_unit_scaling(jac_dict)\n        if coloring is not None:\n            if coloring._subtractions:\n                coloring._apply_subtractions(self.J)\n        if self.has_scaling:\n            self._driver._autoscaler.apply_jac_scaling(jac_dict)\n\n    def compute_totals(self, progress_out_stream=None):\n")]),
+    Mutant('seeds-conditional-tuple-swapped', TJ, "                            if fwd:\n                                fwd_seeds = itermeta['seed_vars']\n                                rev_seeds = None\n                            else:\n                                fwd_seeds = None\n                                rev_seeds = itermeta['seed_vars']",
+           "                            sv = itermeta['seed_vars']\n"
+           "                            fwd_seeds, rev_seeds = (None, sv) if fwd else (sv, None)", 'C01.loop'),
+    Mutant('unit-early-return-flat-multiplies-desvar', TJ,
+           "        if is_flat:\n            for (out_name, in_name), block in jac_dict.items():",
+           "        if is_flat:\n            for key, block in jac_dict.items():\n                out_name, in_name = key\n"
+           "                block *= self._desvar_unit_scalers.get(in_name) or 1.0\n            return\n"
+           "        if is_flat:\n            for (out_name, in_name), block in jac_dict.items():", 'C01.scaling'),
     Mutant('rev-transfer-restored-fwd', GROUP, "                    vec_inputs.scale_to_phys(mode='rev')",
            "                    vec_inputs.scale_to_phys()", 'C01.transfer-scaling'),
     Mutant('apply-linear-outputs-left-scaled', 'openmdao/core/implicitcomponent.py',
@@ -3439,6 +3512,24 @@ selftest(
          "            of_src_names = [driver._responses[n]['source'] for n in driver_ordered_nl_resp_names]",
          "            of_src_names = [driver._responses[rn]['source'] for rn in list(driver_ordered_nl_resp_names)]",
          nth='all'),
+    Twin('twin-finish-jac-helper', TJ, "                # substitution-method coloring: recover the remaining entries before any scaling,\n                # since the subtractions combine entries from different rows/columns.\n                if self.simul_coloring is not None and self.simul_coloring._subtractions:\n                    self.simul_coloring._apply_subtractions(self.J)\n\n                self._apply_unit_scaling(self.J_dict)\n\n                # Driver scaling.\n                if self.has_scaling:\n                    self._driver._autoscaler.apply_jac_scaling(self.J_dict)\n", "                self._finish_jac()\n",
+         also=[(TJ, "    def compute_totals(self, progress_out_stream=None):\n", "    def _finish_jac(self):\n        coloring = self.simul_coloring\n        if coloring is not None:\n            if coloring._subtractions:\n                coloring._apply_subtractions(self.J)\n        jac_dict = self.J_dict\n        self._apply_unit_scaling(jac_dict)\n        if self.has_scaling:\n            self._driver._autoscaler.apply_jac_scaling(jac_dict)\n\n    def compute_totals(self, progress_out_stream=None):\n")]),
+    Twin('twin-seeds-conditional-tuple', TJ, "                            if fwd:\n                                fwd_seeds = itermeta['seed_vars']\n                                rev_seeds = None\n                            else:\n                                fwd_seeds = None\n                                rev_seeds = itermeta['seed_vars']",
+         "                            sv = itermeta['seed_vars']\n"
+         "                            fwd_seeds, rev_seeds = (sv, None) if fwd else (None, sv)"),
+    Twin('twin-unit-scaling-early-return', TJ,
+         "        if is_flat:\n            for (out_name, in_name), block in jac_dict.items():\n"
+         "                # Apply row scaling if the output has unit scaling\n"
+         "                out_scaler = self._resp_unit_scalers.get(out_name)\n"
+         "                if out_scaler:\n                    block *= out_scaler\n\n"
+         "                # Apply column scaling if the input has unit scaling\n"
+         "                in_scaler = self._desvar_unit_scalers.get(in_name)\n"
+         "                if in_scaler:\n                    block *= (1.0 / in_scaler)\n        else:\n",
+         "        if is_flat:\n            for key, block in jac_dict.items():\n                out_name, in_name = key\n"
+         "                out_scaler = self._resp_unit_scalers.get(out_name)\n"
+         "                if out_scaler:\n                    block *= out_scaler\n"
+         "                in_scaler = self._desvar_unit_scalers.get(in_name)\n"
+         "                if in_scaler:\n                    block *= (1.0 / in_scaler)\n            return\n        if True:\n"),
     Twin('twin-scalings-commuted', TJ, "                self._apply_unit_scaling(self.J_dict)\n\n                # Driver scaling.\n                if self.has_scaling:\n                    self._driver._autoscaler.apply_jac_scaling(self.J_dict)\n\n",
          "                # Driver scaling.\n                if self.has_scaling:\n"
          "                    self._driver._autoscaler.apply_jac_scaling(self.J_dict)\n\n"
